@@ -5,7 +5,9 @@ CONSTANTS
   MaxOut = 1
   MaxTicks = 1
   MaxCrashes = 1
-  MaxOps = 3
+  MaxOps = 2
+  MaxOps2 = 2
+  FirstSess = "c1"
   RunEnabled = TRUE
   Ops = {"submit", "status"}
   FindUnitHoldsRLock = FALSE
